@@ -656,3 +656,35 @@ def localized_number_guard(ck, F, rule="TABLE-io"):
               "get_localized_text substitutes %s but decides whether to do so from %s: in a locale where the two disagree (fr) a "
               "number is shown with `.` and typing it back makes it text" % (sorted(used), sorted(guards)), f, l,
               sample={"substituted": sorted(used), "guard": sorted(guards)})
+
+
+def intern_returns(ck, F, rule="COVER-style"):
+    """An interned index is always found or made: every value that Styles::get_style_index_or_create and
+    get_or_create_component_ids return comes from a lookup (get_*_index), from the table it was just pushed to
+    (len, create_new_style, get_new_num_fmt_index) -- never from a constant.  A shortcut such as "the default style is index
+    0" is only true for workbooks whose first xf is the default style."""
+    n = 0
+    for name in ("get_style_index_or_create", "get_or_create_component_ids"):
+        b = ck.need(F.one, "Styles::" + name)
+        k = 0
+        for bi, si, s in b.stmts():
+            if s["p"]["l"] != 0:
+                continue
+            rv = s["rv"]
+            ops = []
+            if rv["k"] == "use":
+                ops = [rv["o"]]
+            elif rv["k"] == "agg":
+                ops = list(rv["ops"])
+            for o in ops:
+                sr = sources(b, o)
+                const_only = bool(sr) and sr <= {("const",)}
+                k += 1
+                n += 1
+                f, l = b.loc(bi, si)
+                ck.ob(rule, "%s|returned index #%d comes from a lookup or a push" % (name, k), not const_only,
+                      "Styles::%s can return a constant index without looking the value up: two different styles share that table entry "
+                      "whenever the entry is not what the shortcut assumes" % name, f, l, sample={"fn": name})
+        ck.ob(rule, "%s|return sites" % name, k >= 1 or any(t["dest"]["l"] == 0 for _, t in b.calls() if not place_proj(t["dest"])),
+              "Styles::%s: no assignment to the return value found (anchor lost?)" % name, b.file, b.line)
+    ck.note("intern_return_values", n)
